@@ -213,7 +213,9 @@ pub fn gen_tape(r: &mut Rng, profile: Profile, allow_sweep: bool) -> Tape {
             } else if r.chance(p_flip) {
                 Fault::FlipBit { pos: r.next_u64() as u32 }
             } else if r.chance(p_garb) {
-                Fault::Garbage { kind: r.below(3) as u8 }
+                // a corrupted copy of the client's first Initial racing the original from *another* address can wedge
+                // the handshake (RFC 9000 21.2 accepts handshake disruption by on-path attackers): unbounded only
+                Fault::Garbage { kind: if profile == Profile::Bounded { *r.pick(&[0u8, 1, 3]) } else { r.below(4) as u8 } }
             } else {
                 continue;
             };
@@ -246,6 +248,27 @@ pub fn gen_tape(r: &mut Rng, profile: Profile, allow_sweep: bool) -> Tape {
         }
     }
     tape
+}
+
+/// Number of window round trips the workload needs in the worse direction: with a window of W bytes the
+/// receiver re-opens it at best once per RTT, so `bytes / W` round trips are unavoidable.
+pub fn window_rounds(case_streams: &[StreamSpec], client: &ParamCfg, server: &ParamCfg) -> u64 {
+    let mut rounds = [0u64; 2]; // data flowing client->server, server->client
+    let mut conn_bytes = [0u64; 2];
+    for s in case_streams {
+        // (bytes, direction, window advertised by the receiver for that stream kind)
+        let (fwd_dir, rcv, snd) = if s.opener == Side::Client { (0, server, client) } else { (1, client, server) };
+        let fwd_win = if s.bidi { rcv.stream_bidi_remote } else { rcv.stream_uni };
+        rounds[fwd_dir] += (s.size as u64).div_ceil(fwd_win.max(1) as u64);
+        conn_bytes[fwd_dir] += s.size as u64;
+        if s.bidi {
+            let back_win = snd.stream_bidi_local;
+            rounds[1 - fwd_dir] += (s.resp_size as u64).div_ceil(back_win.max(1) as u64);
+            conn_bytes[1 - fwd_dir] += s.resp_size as u64;
+        }
+    }
+    let conn = [conn_bytes[0].div_ceil(server.max_data.max(1) as u64), conn_bytes[1].div_ceil(client.max_data.max(1) as u64)];
+    rounds[0].max(rounds[1]).max(conn[0]).max(conn[1])
 }
 
 pub fn gen_streams(r: &mut Rng, max_streams: u64, max_size: u32) -> Vec<StreamSpec> {
@@ -315,6 +338,14 @@ impl Engine for NetSim {
         };
         let client = gen_params(&mut r, idle, need(Side::Server, true), need(Side::Server, false));
         let server = gen_params(&mut r, idle, need(Side::Client, true), need(Side::Client, false));
+        // keep the unavoidable number of flow-control round trips bounded so runs stay short
+        let mut streams = streams;
+        while window_rounds(&streams, &client, &server) > 120 {
+            for s in streams.iter_mut() {
+                s.size /= 2;
+                s.resp_size /= 2;
+            }
+        }
         let lat = [r.range(1, 200) as u32, r.range(1, 200) as u32];
         let net = NetCfg {
             latency_ms: lat,
